@@ -15,6 +15,10 @@ def one_trace(rng, tid, prop):
     kw = {"display_graded": rng.random() < 0.5, "display_reverse": rng.random() < 0.5,
           "display_inverse": rng.random() < 0.5,
           "display_exponent": rng.choice(["**", "**", "^"]), "display_multiply": rng.choice(["*", "*", "·"])}
+    if rng.random() < 0.4:
+        # the other options must not matter for the text either (C15)
+        kw.update({"retain_names": rng.random() < 0.5, "retain_coefficients": rng.random() < 0.5,
+                   "sort_graded": rng.random() < 0.5, "sort_reverse": rng.random() < 0.5})
     if rng.random() < 0.85:
         rec.do("set_options", [], keep=False, kw=kw, bad=[])
     for _ in range(rng.randint(2, 4)):
